@@ -321,6 +321,10 @@ def axis_entries(rng, host, lo, hi, span: bool):
     ba, ea = rng.random() < 0.3, rng.random() < 0.3
     if not span and rng.random() < 0.7:
         ea = ba
+    if span and ba != ea and rng.random() < 0.4:
+        # a mixed reference (A$5:A<own row>) filled to the other side of its anchor is stored with its ends in that
+        # order: the relative end resolves before the absolute one, and must be printed where it is stored
+        e = rng.randrange(lo, b + 1)
     if ba and ea:
         rel, ab = [], [[b, e]] if (e != b or rng.random() < 0.5) else [[b]]
     elif not ba and not ea:
